@@ -12,7 +12,7 @@ CANARIES = ["canary.week52"]
 EXPLANATION = ("PROVED through the real dumper code path (TimePointDumper.strftime symbolically executed on symbolic TimePoints in all 3 representations): for %%Y, %%F, %%Y-%%m-%%d, %%j, %%H:%%M:%%S, %%X, %%z, %%s the template and the value every conversion prints are those POSIX defines over the civil date-time (civil year contains the day; month/day/day-of-year of that day; h/m/s; sign and magnitudes of the offset; exact Unix seconds), year outside 0000-9999 raises TimePointDumperBoundsError, unsupported directives raise StrftimeSyntaxError; %%s content - seconds_since_unix_epoch is the exact integer distance from the epoch for every whole-second point in any shape/offset. strptime INVERSE proved for five full formats (%%Y-%%m-%%dT%%H:%%M:%%S%%z, %%Y%%m%%dT%%H%%M%%S%%z, %%FT%%X%%z, %%Y-%%jT%%H:%%M:%%S%%z, %%d.%%m.%%Y %%H:%%M:%%S %%z) x 3 representations of a whole-second point in years 0000-9999 with any valid offset: the REAL strftime, the REAL strptime (regex built at run time from the format, compiled, and matched against the formatted text by the lexing lemma) and TimePoint.__init__ composed: the result equals p and carries p's offset (ghost program strftime_strptime_round_trip). BOUNDED: every supported directive and literal text against POSIX values computed from the spec, for years 0000..9999 boundaries x 3 representations x 12 offsets x 17 format strings; strptime inverse for full formats; 28 unsupported directives refused.")
 ASSUMPTIONS = ["%%-template formatting and regex construction are outside the modelled subset"]
 LEVEL_TEXT = "%%s numeric content: proof; directive rendering: bounded grid. Hence other."
-LEVEL_NOTE = "see DESIGN section 5/C17"
+LEVEL_NOTE = "see DESIGN.md A.4 (as built) and section 5/C17 (plan)"
 
 
 def custom(tier, seed, repo):
